@@ -163,7 +163,7 @@ MaskEqualsList == \A k \in Steps("select") : (hist[k].class \in {"mask_all", "ma
 (* every file of the container is restricted to the returned bands (every entry from the right place) *)
 AllRestricted == \A k \in Steps("select") : hist[k].err = "" => hist[k].restr
 (* selecting all bands (identity list, all-True mask, no argument, an infinite window) changes no file *)
-IdentityNoop == \A k \in Steps("select") : (hist[k].err = "" /\ hist[k].ident) => hist[k].unchanged
+IdentityNoop == \A k \in Steps("select") : (hist[k].err = "" /\ hist[k].ident /\ Sound(k)) => hist[k].unchanged
 (* the docstring of the window: exactly the bands that are not entirely below win_min or entirely above win_max, inside
    band_start..band_end - where the docstring decides *)
 WindowDoc == \A k \in Steps("select") : (hist[k].err = "" /\ hist[k].class \in {"window_clean", "window_all", "none", "range"}) =>
